@@ -48,6 +48,13 @@ CLAIMED = {
             'simcall exactly once; finish stores the payload only in state DONE and answers each live registered simcall.',
             'User-level payload lifetime and the timing of puts/gets are not decided.',
             'DESIGN.md §3 C09'),
+    'C18': ('who-may-write over every unit including System.hpp, pairing and must-pass-through on CFG paths, guard dominance',
+            'concurrency_current_ has no writer but Element::increase/decrease_concurrency in any unit that can see it; enable_var/disable_var move every element between the '
+            'enabled and disabled sets together with the matching counter update; every path of a System function that calls disable_var(v) (and every iteration of var_free) then '
+            'offers the freed slots through on_disabled_var on each constraint of v; staging happens only at zero slack, enabling only under can_enable(); disable_var zeroes penalty, '
+            'staged penalty and value together. These are the code-shape conditions of "limit respected, nobody starves" for every sequence of operations.',
+            'The numeric slack computation and the order in which staged variables are tried are not decided.',
+            'DESIGN.md §3 C18'),
 }
 
 NOT_APPLICABLE = {
